@@ -54,6 +54,7 @@ fn main() {
         "C05" => dgh::c05::run(&tier, seed),
         "C02" => dgh::walkprops::run_c02(&tier, seed),
         "C07" => dgh::c07::run(&tier, seed),
+        "C13" => dgh::c13::run(&tier, seed),
         _ => {
           eprintln!("unknown property {}", prop);
           std::process::exit(2)
